@@ -37,13 +37,25 @@ type windowD struct {
 	Schema   int     `json:"schema_calls,omitempty"`
 	SchemaP  int     `json:"schema_panics,omitempty"`
 	GoNonLin bool    `json:"go_mirror_nonlinearizable,omitempty"`
+	Late     []latePair `json:"late,omitempty"`     // retained responses read again later
+	Overlaps int64      `json:"overlaps,omitempty"` // concurrent entries into one node's Process during the window
+	LateBad  int        `json:"late_mismatches,omitempty"`
+	Prev     *prevD     `json:"prev,omitempty"` // the window before this one on the same instance (replay warm-up)
 }
+
+type prevD struct {
+	Init  []int   `json:"init"`
+	Progs [][]opD `json:"progs"`
+}
+
+func (w *windowD) flagged() bool { return w.GoNonLin || w.Timeout || w.LateBad > 0 || w.Overlaps > 0 }
 
 var (
 	jitterFlag    = flag.Int("jitter", 8, "max busy wait (microseconds) between input reads inside harness-defined nodes; 0 = none")
 	unlockedReads = flag.Bool("unlocked-reads", true, "clients also call ModelVersion() and Schema() (documented-unlocked readers)")
 	attempts      = flag.Int("attempts", 300, "replay: number of re-runs of the recorded programs")
 	windowTimeout = flag.Duration("window-timeout", 10*time.Second, "deadline for one window")
+	consumeFlag   = flag.Bool("consume", true, "clients also re-read retained responses of earlier windows slowly while updates run")
 )
 
 // ---------------------------------------------------------------- one call against the implementation
@@ -76,7 +88,8 @@ func (g *liveGraph) do(t int, op opD, clock *atomic.Uint64) (rc rec) {
 		rc.Inv = clock.Add(1)
 		data := g.inst.ParameterData(id)
 		rc.Res = clock.Add(1)
-		if v, ok := decodeVal(g.par[op.P].typ, data); ok {
+		rc.raw, rc.g = data, g
+		if v, ok := decodeVal(g.par[op.P].typ, append([]byte{}, data...)); ok {
 			rc.Resp = respD{K: "get", V: v}
 		} else {
 			rc.Resp = respD{K: "fail"}
@@ -88,12 +101,13 @@ func (g *liveGraph) do(t int, op opD, clock *atomic.Uint64) (rc rec) {
 		rc.Inv = clock.Add(1)
 		a := g.inst.Artifact(name)
 		rc.Res = clock.Add(1)
-		txt, ok := artifactText(a)
-		if vs, ok2 := parseText(txt, rc.F); ok && ok2 {
+		rc.art, rc.g = a, g
+		txt, ok := artifactText(a) // a copy of what the artifact shows at response time
+		if vs, ok2 := g.decodeArtifact(op.Prod, []byte(txt)); ok && ok2 {
 			rc.Resp = respD{K: "art", Vs: vs}
 		} else {
 			rc.Resp = respD{K: "fail"}
-			rc.Note = "artifact text " + txt
+			rc.Note = "artifact shows " + txt
 		}
 	case "v":
 		rc.Inv = clock.Add(1)
@@ -105,8 +119,91 @@ func (g *liveGraph) do(t int, op opD, clock *atomic.Uint64) (rc rec) {
 		s := g.inst.Schema()
 		rc.Res = clock.Add(1)
 		rc.Resp = respD{K: "schema", V: len(s.Nodes)}
+	case "c":
+		// slow consumer: read a response retained from an earlier window chunk by chunk while updates run
+		rc.Inv = clock.Add(1)
+		if len(g.retained) > 0 {
+			old := g.retained[op.P%len(g.retained)]
+			rc.Resp = respD{K: "consumed"}
+			rc.Note = "ok"
+			late := old.reread(true)
+			rc.F = []int{op.P % len(g.retained)}
+			rc.Resp.Ok = respEq(old.Resp, late)
+			rc.lateOf, rc.lateResp = old, late
+		}
+		rc.Res = clock.Add(1)
 	}
 	return rc
+}
+
+// slowWriter copies what it is given in small chunks, yielding in between (a slow download)
+type slowWriter struct {
+	buf  []byte
+	slow bool
+}
+
+func (w *slowWriter) Write(p []byte) (int, error) {
+	for off := 0; off < len(p); off += 4 {
+		end := off + 4
+		if end > len(p) {
+			end = len(p)
+		}
+		w.buf = append(w.buf, p[off:end]...)
+		if w.slow {
+			runtime.Gosched()
+		}
+	}
+	return len(p), nil
+}
+
+// reread decodes the RETAINED object again (not the copy taken at response time)
+func (rc *rec) reread(slow bool) (out respD) {
+	defer func() {
+		if e := recover(); e != nil {
+			out = respD{K: "fail"}
+		}
+	}()
+	g := rc.g
+	switch rc.Op.K {
+	case "a":
+		if rc.art == nil || g == nil {
+			return rc.Resp
+		}
+		w := &slowWriter{slow: slow}
+		if err := rc.art.Write(w); err != nil {
+			return respD{K: "fail"}
+		}
+		if vs, ok := g.decodeArtifact(rc.Op.Prod, w.buf); ok {
+			return respD{K: "art", Vs: vs}
+		}
+		return respD{K: "fail"}
+	case "g":
+		if g == nil || rc.Resp.K != "get" {
+			return rc.Resp
+		}
+		w := &slowWriter{slow: slow}
+		w.Write(rc.raw)
+		if v, ok := decodeVal(g.par[rc.Op.P].typ, w.buf); ok {
+			return respD{K: "get", V: v}
+		}
+		return respD{K: "fail"}
+	}
+	return rc.Resp
+}
+
+// sliceBacked: responses whose retained object may share memory with the parameter store
+func (rc *rec) sliceBacked() bool {
+	if rc.g == nil {
+		return false
+	}
+	switch rc.Op.K {
+	case "a":
+		return rc.g.shape.Prods[rc.Op.Prod].Kind != ""
+	case "g":
+		t := rc.g.par[rc.Op.P].typ
+		return t == "file" || t == "ints"
+	}
+	return false
 }
 
 func (g *liveGraph) readAll() []int {
@@ -352,6 +449,13 @@ func genPrograms(r *hx.Rng, g *liveGraph, T int, cur []int, withUnlocked bool) [
 			progs[t] = append(progs[t][:pos], append([]opD{{K: "s"}}, progs[t][pos:]...)...)
 		}
 	}
+	if *consumeFlag && len(g.retained) > 0 {
+		for k := r.Intn(3); k > 0; k-- {
+			t := r.Intn(T)
+			pos := r.Intn(len(progs[t]) + 1)
+			progs[t] = append(progs[t][:pos], append([]opD{{K: "c", P: r.Intn(len(g.retained))}}, progs[t][pos:]...)...)
+		}
+	}
 	return progs
 }
 
@@ -377,11 +481,69 @@ func finishWindow(w *windowD, recs []rec) {
 			if r.Resp.K == "fail" {
 				w.SchemaP++
 			}
+		case "c":
+			if r.lateOf != nil {
+				w.Late = append(w.Late, latePair{Orig: r.lateOf.Resp, Late: r.lateResp, When: "slow-consumer", Op: r.lateOf.Op})
+			}
 		default:
 			w.Calls = append(w.Calls, r)
 		}
 	}
 	w.GoNonLin = !goLinearizable(w.Init, w.Calls)
+}
+
+// afterWindow (quiescent, main goroutine): every response of the window and the slice-backed responses retained
+// from earlier windows are read again and compared with what they showed at response time; then the window's
+// slice-backed responses join the retained set
+func afterWindow(g *liveGraph, w *windowD) {
+	for k := range w.Calls {
+		c := &w.Calls[k]
+		if (c.Op.K == "a" || c.Op.K == "g") && c.Resp.K != "fail" {
+			w.Late = append(w.Late, latePair{Orig: c.Resp, Late: c.reread(false), When: "window-end", Op: c.Op})
+		}
+	}
+	for _, old := range g.retained {
+		w.Late = append(w.Late, latePair{Orig: old.Resp, Late: old.reread(false), When: "later-window", Op: old.Op})
+	}
+	for k := range w.Calls {
+		c := &w.Calls[k]
+		if c.Resp.K != "fail" && c.sliceBacked() {
+			cp := *c
+			g.retained = append(g.retained, &cp)
+		}
+	}
+	if n := len(g.retained); n > 8 {
+		g.retained = g.retained[n-8:]
+	}
+	w.Overlaps = g.over.Swap(0)
+	w.LateBad = 0
+	for _, l := range w.Late {
+		if !respEq(l.Orig, l.Late) {
+			w.LateBad++
+		}
+	}
+}
+
+// oneWindow: run the programs of w on g, read the state at the following quiescent point, re-read retained responses
+func oneWindow(g *liveGraph, w *windowD, clock *atomic.Uint64) {
+	g.over.Store(0)
+	recs, to := runWindow(g, w.Progs, clock)
+	w.Timeout = to
+	w.Final, w.VerAfter = w.Init, w.Ver // kept when the instance is wedged: it is not touched again
+	if !to {
+		if f, v, ok := g.readState(); ok {
+			w.Final, w.VerAfter = f, v
+		} else {
+			w.Timeout = true
+			recs = append(recs, stuckRead(clock))
+		}
+	}
+	finishWindow(w, recs)
+	if !w.Timeout {
+		afterWindow(g, w)
+	} else {
+		w.Overlaps = g.over.Swap(0)
+	}
 }
 
 func toCase(w *windowD, kindPrefix string) hx.Case {
@@ -393,15 +555,20 @@ func toCase(w *windowD, kindPrefix string) hx.Case {
 		vs = append(vs, fmt.Sprintf("V %d %d %d", v.Inv, v.Res, v.Resp.V))
 	}
 	calls := "[" + strings.Join(cs, "; ") + "]"
+	var ls []string
+	for _, l := range w.Late {
+		ls = append(ls, fmt.Sprintf("L %s %s", coqResp(l.Orig), coqResp(l.Late)))
+	}
+	late := "[" + strings.Join(ls, "; ") + "]"
 	var coq, kind string
-	if w.Threads == 1 && len(w.VReads) == 0 {
+	if w.Threads == 1 && len(w.VReads) == 0 && w.Overlaps == 0 {
 		// program order = stamp order for a single client
 		kind = "seq"
-		coq = fmt.Sprintf("CSeq %s %d %s %s %d", coqNs(w.Init), w.Ver, calls, coqNs(w.Final), w.VerAfter)
+		coq = fmt.Sprintf("CSeq %s %d %s %s %d %s", coqNs(w.Init), w.Ver, calls, coqNs(w.Final), w.VerAfter, late)
 	} else {
 		kind = "hist"
-		coq = fmt.Sprintf("CHist %d %s %d %s %s %d [%s]", w.Threads, coqNs(w.Init), w.Ver, calls, coqNs(w.Final), w.VerAfter,
-			strings.Join(vs, "; "))
+		coq = fmt.Sprintf("CHist %d %s %d %s %s %d [%s] %s %d", w.Threads, coqNs(w.Init), w.Ver, calls, coqNs(w.Final), w.VerAfter,
+			strings.Join(vs, "; "), late, w.Overlaps)
 	}
 	nontriv := false
 	if w.Threads >= 2 {
@@ -414,7 +581,7 @@ func toCase(w *windowD, kindPrefix string) hx.Case {
 			}
 		}
 	}
-	key := w.Shape.Name + "|" + fmt.Sprint(w.Init) + "|" + calls + "|" + strings.Join(vs, ";")
+	key := w.Shape.Name + "|" + fmt.Sprint(w.Init) + "|" + calls + "|" + strings.Join(vs, ";") + "|" + late
 	return hx.Case{Kind: kindPrefix + kind, Desc: w, Coq: coq, Nontriv: nontriv, Key: key}
 }
 
@@ -455,6 +622,21 @@ func stats(run *hx.Run, w *windowD) {
 	if w.GoNonLin {
 		run.Count("window:nonlinearizable-by-go-mirror")
 	}
+	for _, l := range w.Late {
+		run.Count("reread:" + l.When)
+		if !respEq(l.Orig, l.Late) {
+			run.Count("reread-mismatch:" + l.When)
+		}
+	}
+	if w.Overlaps > 0 {
+		run.Count("window:concurrent-node-evaluation")
+	}
+	for _, t := range w.Shape.PTypes {
+		if t == "file" || t == "ints" {
+			run.Count("window:with-slice-parameters")
+			break
+		}
+	}
 }
 
 // ---------------------------------------------------------------- main
@@ -487,37 +669,38 @@ func main() {
 		var reruns []*windowD
 		reproduced := 0
 		for a := 0; a < *attempts && reproduced < 3; a++ {
-			g := build(w.Shape, w.Init, &jit{level: w.Jitter})
-			nw := &windowD{Shape: w.Shape, Threads: w.Threads, Jitter: w.Jitter, Progs: w.Progs}
 			run.Count("replay:attempt")
-			var ok0 bool
-			if nw.Init, nw.Ver, ok0 = g.readState(); !ok0 {
-				nw.Init, nw.Timeout = w.Init, true
-				nw.Final = w.Init
-				finishWindow(nw, []rec{stuckRead(clock)})
-				reruns = append(reruns, nw)
-				reproduced++
-				break
+			init := w.Init
+			if w.Prev != nil {
+				init = w.Prev.Init
 			}
-			recs, to := runWindow(g, w.Progs, clock)
-			nw.Timeout = to
-			nw.Final, nw.VerAfter = nw.Init, nw.Ver
-			if !to {
-				if f, v, ok := g.readState(); ok {
-					nw.Final, nw.VerAfter = f, v
+			g := build(w.Shape, init, &jit{level: w.Jitter})
+			seq := [][][]opD{w.Progs}
+			if w.Prev != nil { // warm-up: the window before it, so that retained responses exist
+				seq = [][][]opD{w.Prev.Progs, w.Progs}
+			}
+			stop := false
+			for k, progs := range seq {
+				nw := &windowD{Shape: w.Shape, Threads: w.Threads, Jitter: w.Jitter, Progs: progs}
+				var ok0 bool
+				if nw.Init, nw.Ver, ok0 = g.readState(); !ok0 {
+					nw.Init, nw.Final, nw.Timeout = init, init, true
+					finishWindow(nw, []rec{stuckRead(clock)})
 				} else {
-					nw.Timeout = true
-					recs = append(recs, stuckRead(clock))
+					oneWindow(g, nw, clock)
+				}
+				if nw.flagged() {
+					reproduced++
+					reruns = append(reruns, nw)
+				} else if a%15 == 0 && k == len(seq)-1 { // a sample of the accepted re-runs is judged by Coq as well
+					reruns = append(reruns, nw)
+				}
+				if nw.Timeout {
+					stop = true
+					break
 				}
 			}
-			finishWindow(nw, recs)
-			if nw.GoNonLin || nw.Timeout {
-				reproduced++
-				reruns = append(reruns, nw)
-			} else if a%15 == 0 { // a sample of the accepted re-runs is judged by Coq as well
-				reruns = append(reruns, nw)
-			}
-			if nw.Timeout {
+			if stop {
 				break
 			}
 		}
@@ -577,24 +760,15 @@ func main() {
 			continue
 		}
 		nwin := r.Range(20, 50)
+		var prev *prevD
 		for k := 0; k < nwin && len(windows) < run.N; k++ {
-			w := &windowD{Shape: shape, Threads: T, Jitter: jl, Init: cur, Ver: ver}
+			w := &windowD{Shape: shape, Threads: T, Jitter: jl, Init: cur, Ver: ver, Prev: prev}
 			w.Progs = genPrograms(r, g, T, cur, *unlockedReads)
-			recs, to := runWindow(g, w.Progs, clock)
-			w.Timeout = to
-			w.Final, w.VerAfter = cur, ver // kept when the instance is wedged: it is not touched again
-			if !to {
-				if f, v, ok := g.readState(); ok {
-					w.Final, w.VerAfter = f, v
-				} else {
-					to, w.Timeout = true, true
-					recs = append(recs, stuckRead(clock))
-				}
-			}
-			finishWindow(w, recs)
+			oneWindow(g, w, clock)
 			windows = append(windows, w)
+			prev = &prevD{Init: w.Init, Progs: w.Progs}
 			cur, ver = w.Final, w.VerAfter
-			if to {
+			if w.Timeout {
 				if wedged++; wedged >= 4 {
 					run.N = len(windows) // a wedged implementation: a few reports are enough
 				}
@@ -607,7 +781,7 @@ func main() {
 	// a non-linearizable window with many concurrent updates is slow for the Coq search
 	var flagged []*windowD
 	for _, w := range windows {
-		if w.GoNonLin {
+		if w.flagged() {
 			flagged = append(flagged, w)
 		}
 	}
@@ -630,8 +804,8 @@ func main() {
 	calls, total := 0, 0
 	for _, w := range windows {
 		total++
-		if w.GoNonLin && !keep[w] {
-			run.Count("window:nonlinearizable-by-go-mirror-not-emitted")
+		if w.flagged() && !keep[w] {
+			run.Count("window:rejected-by-go-mirror-not-emitted")
 			continue
 		}
 		stats(run, w)
@@ -641,7 +815,7 @@ func main() {
 	run.Extra["windows"] = total
 	run.Extra["calls"] = calls
 	run.Extra["epochs"] = epoch
-	run.Extra["go_mirror_nonlinearizable"] = len(flagged)
+	run.Extra["go_mirror_rejected"] = len(flagged)
 	run.Extra["jitter_us"] = *jitterFlag
 	run.Extra["unlocked_reads"] = *unlockedReads
 	run.Extra["gomaxprocs"] = runtime.GOMAXPROCS(0)
